@@ -138,4 +138,12 @@ theorem C01_duration_taken_from_message :
     Pool.Gen.Batch.serverOrderDurationSources.all (· == "details.LeaseDurationBlocks") = true ∧
     Pool.Gen.Batch.serverOrderDurationSources.length = 3 := by decide
 
+/-- **Regenerated fact.** Whatever SEC encoding a counterparty's node key / funding key arrives in (33-byte compressed,
+65-byte uncompressed or hybrid), `ParseRPCServerOrder` stores the *re-serialised compressed* form of the parsed point
+in `MatchedOrder.NodeKey` / `MultiSigKey` – never the raw wire bytes.  This is why the model's `parseTheir` works on
+canonical keys (own-node test, allow/deny lists and funding scripts compare canonical 33-byte keys). -/
+theorem C01_keys_stored_canonical :
+    Pool.Gen.Batch.serverOrderKeyCopies.all (· == "SerializeCompressed") = true ∧
+    2 ≤ Pool.Gen.Batch.serverOrderKeyCopies.length := by decide
+
 end Pool.C01
